@@ -21,7 +21,7 @@
 (***************************************************************************)
 EXTENDS Announce, Json
 
-CONSTANT Off   \* subset of {"stopped", "dst", "tok", "args", "once", "right", "owed", "order"}
+CONSTANT Off   \* subset of {"stopped", "dst", "tok", "args", "once", "right", "owed", "order", "deliver"}
 
 VARIABLES l,     \* next line of the trace
           dlog,  \* address -> number of PeersDelivered lines
@@ -148,10 +148,20 @@ TraceEnd ==
   /\ On("order") => (finished /\ peersClosed)
   /\ UNCHANGED <<vars, dlog, owed>>
 
+\* clause "deliver" (never enabled while the clause is on): a response that waits for the consumer is given up
+\* although nobody has stopped the announce
+AbandonAnyway(n) ==
+  /\ ~On("deliver")
+  /\ qst[n] = "got"
+  /\ aband' = aband \cup {n}
+  /\ PostEffect(n, rep[n])
+  /\ UNCHANGED <<opt, rep, gate, stopping, stopped, fin, ann, closedF, finished, peersClosed, reading,
+                 userStop, deliv, sent>>
+
 \* what the node does between two lines (Announce's steps, run together where nothing observable
 \* lies between them)
 Silent ==
-  /\ \/ \E n \in Addrs : TimeoutDone(n) \/ CancelDone(n) \/ DeliverDone(n) \/ AbandonDone(n)
+  /\ \/ \E n \in Addrs : TimeoutDone(n) \/ CancelDone(n) \/ DeliverDone(n) \/ AbandonDone(n) \/ AbandonAnyway(n)
      \/ StallStop \/ StoppedAnnounce \/ FinishAll
   /\ UNCHANGED <<l, dlog, owed>>
 
